@@ -425,7 +425,7 @@ Section RoundTrip.
   (* the operator loop stops at `rest` *)
   Lemma loop_stop f p e rest : stop (Some p) rest -> q_loop (par T (S f)) p e rest = Some (e, rest).
   Proof.
-    intros [_ H]. cbn [par step q_loop]. destruct rest as [|[a|s un|bl br|k|k| | | |n|n| | |i|w| ] r]; try reflexivity.
+    intros [_ H]. cbn [par step q_loop]. destruct rest as [|[a|s un|bl br|k|k| | | |n|n| | |i|w| | | | ] r]; try reflexivity.
     destruct (bin_of_sym T s) as [o'|]; [|reflexivity]. destruct H as [_ H].
     destruct (Nat.leb_spec p (lbp T o')); [lia | reflexivity].
   Qed.
@@ -477,8 +477,8 @@ Section RoundTrip.
   Lemma range_of_unary P ts x rest :
     p_unary T P ts = Some (x, rest) -> not_rng_head ts -> norange rest -> p_range T P ts = Some (x, rest).
   Proof.
-    intros H Hh Hn. unfold p_range. destruct ts as [|[a|s un|bl br|k|k| | | |n|n| | |i|w| ] r]; try contradiction; rewrite H;
-      (destruct rest as [|[a'|s' un'|bl' br'|k'|k'| | | |n'|n'| | |i'|w'| ] r']; try reflexivity; destruct bl'; [contradiction | reflexivity]).
+    intros H Hh Hn. unfold p_range. destruct ts as [|[a|s un|bl br|k|k| | | |n|n| | |i|w| | | | ] r]; try contradiction; rewrite H;
+      (destruct rest as [|[a'|s' un'|bl' br'|k'|k'| | | |n'|n'| | |i'|w'| | | | ] r']; try reflexivity; destruct bl'; [contradiction | reflexivity]).
   Qed.
 
   Lemma unary_of_term P ts x rest :
@@ -994,7 +994,7 @@ Section RoundTrip.
     stop (Some (rbp T o)) rest -> stop (edge st c) rest.
   Proof.
     intros Ho Hoc Hr [Hn Hs]. split; [exact Hn|]. unfold edge.
-    destruct rest as [|[a|s un|bl br|k|k| | | |n|n| | |i|w| ] rest']; try exact I.
+    destruct rest as [|[a|s un|bl br|k|k| | | |n|n| | |i|w| | | | ] rest']; try exact I.
     destruct (bin_of_sym T s) as [o'|]; [|exact I]. destruct Hs as [Ho' Hlt].
     destruct c as [a0|o2 l2 r2|u x|l r|l|r| |f args|k es|n x|n x|ps ds b]; try exact I.
     destruct (needs F st (EBin o2 l2 r2)) eqn:EN; [exact I|]. split; [exact Ho'|].
@@ -1260,11 +1260,11 @@ Section RoundTrip.
     induction A as [|t A IH]; [cbn; rewrite orb_false_r; reflexivity|].
     destruct A as [|t2 A'].
     - cbn [app]. destruct B as [|b B'].
-      + destruct t as [a| | | | | | | | | | | | | | ]; try reflexivity. destruct a; reflexivity.
+      + destruct t as [a| | | | | | | | | | | | | | | | | ]; try reflexivity. destruct a; reflexivity.
       + rewrite glued_cons2. generalize (glued (b :: B')). intro y.
-        destruct t as [a|s un|bl br|k|k| | | |n|n| | |i|w| ]; try (destruct y; reflexivity).
+        destruct t as [a|s un|bl br|k|k| | | |n|n| | |i|w| | | | ]; try (destruct y; reflexivity).
         destruct a; try (destruct y; reflexivity).
-        destruct b as [a2|s2 un2|bl2 br2|k2|k2| | | |n2|n2| | |i2|w2| ]; try (destruct y; reflexivity).
+        destruct b as [a2|s2 un2|bl2 br2|k2|k2| | | |n2|n2| | |i2|w2| | | | ]; try (destruct y; reflexivity).
         destruct bl2; destruct y; reflexivity.
     - change ((t :: t2 :: A') ++ B) with (t :: t2 :: (A' ++ B)). rewrite !glued_cons2.
       change (t2 :: A' ++ B) with ((t2 :: A') ++ B). rewrite IH.
@@ -1278,13 +1278,13 @@ Section RoundTrip.
 
   Lemma glued_cons t ts : (forall s, t <> TA (AParam s)) -> glued (t :: ts) = glued ts.
   Proof.
-    intro H. cbn [glued]. destruct t as [a|s un|bl br|k|k| | | |n|n| | |i|w| ]; try reflexivity.
+    intro H. cbn [glued]. destruct t as [a|s un|bl br|k|k| | | |n|n| | |i|w| | | | ]; try reflexivity.
     destruct a; try reflexivity. exfalso. apply (H s). reflexivity.
   Qed.
 
   Lemma ends_param_snoc ts t : (forall s, t <> TA (AParam s)) -> ends_param (ts ++ [t]) = false.
   Proof.
-    intro H. unfold ends_param. rewrite last_last. destruct t as [a| | | | | | | | | | | | | | ]; try reflexivity.
+    intro H. unfold ends_param. rewrite last_last. destruct t as [a| | | | | | | | | | | | | | | | | ]; try reflexivity.
     destruct a; try reflexivity. exfalso. apply (H s). reflexivity.
   Qed.
   Lemma ends_param_cons t t2 ts : ends_param (t :: t2 :: ts) = ends_param (t2 :: ts).
@@ -1299,7 +1299,7 @@ Section RoundTrip.
   Proof. cbn [wrap]. change (TOpen GPipe :: ts ++ [TClose GPipe]) with ((TOpen GPipe :: ts) ++ [TClose GPipe]). apply ends_param_snoc. discriminate. Qed.
 
   Lemma ends_close_not_param ts : ends_close ts = true -> ends_param ts = false.
-  Proof. unfold ends_close, ends_param. destruct (last ts TComma) as [a| | | |k| | | | | | | | | | ]; try discriminate; reflexivity. Qed.
+  Proof. unfold ends_close, ends_param. destruct (last ts TComma) as [a| | | |k| | | | | | | | | | | | | ]; try discriminate; reflexivity. Qed.
 
   (* no printed expression begins with a `..` that binds to the left *)
   Lemma head_not_rng e st : wf e = true -> ops_ok e = true -> starts_rng (fmt F e st) = false.
